@@ -20,7 +20,9 @@
 EXTENDS SerfEventOps
 
 CONSTANTS Snaps,      \* subset of {0, 1}: node without / with Config.SnapshotPath, chosen at Init (field N.snap)
-          Bs,         \* buffer sizes: Config.EventBuffer = Config.QueryBuffer = b, chosen at Init (field N.b)
+          Bs,         \* Config.EventBuffer sizes, chosen at Init (field N.b)
+          BQs,        \* Config.QueryBuffer sizes, chosen independently at Init (field N.bq): the event window is judged
+                      \* against the event ring and the query window against the query ring
           LowT, HighT,\* Lamport times carried by incoming messages
           NC,         \* event contents 1..NC (a <<name, payload>> pair each)
           QIds,       \* query ids of incoming queries (small ints; local queries get 100, 101, ..)
@@ -32,7 +34,7 @@ CONSTANTS Snaps,      \* subset of {0, 1}: node without / with Config.SnapshotPa
 
 MsgT == LowT \cup HighT
 
-ASSUME /\ \A b \in Bs : b \in 1..4 /\ b < H
+ASSUME /\ \A b \in Bs \cup BQs : b \in 1..4 /\ b < H
        /\ \A t \in LowT : t >= 0 /\ t + 2 + LocalMax < H        \* clocks that start low stay below H
        /\ \A t \in HighT : t <= MAX /\ t - 2 > H                \* EventLTime-1 stays in the upper part
 
@@ -41,8 +43,8 @@ ASSUME /\ \A b \in Bs : b \in 1..4 /\ b < H
 \* the last restart -- a crash may lose a suffix), counters of local calls
 \* With a SnapshotPath serf.Create sets both minimum times to (recorded time, 0 if none) + 1, also on the very
 \* first start; without one they stay 0.
-NewNode(b, sn) ==
-           [b |-> b, snap |-> sn, ec |-> 1, emin |-> sn, ebuf |-> EmptyBuf(b), qc |-> 1, qmin |-> sn, qbuf |-> EmptyBuf(b),
+NewNode(b, bq, sn) ==
+           [b |-> b, bq |-> bq, snap |-> sn, ec |-> 1, emin |-> sn, ebuf |-> EmptyBuf(b), qc |-> 1, qmin |-> sn, qbuf |-> EmptyBuf(bq),
             se |-> -1, sq |-> -1, seh |-> {-1}, sqh |-> {-1}, nlq |-> 0, nloc |-> 0]
 
 \* Snapshotter.processUserEvent / processQuery: "if e.LTime <= last then ignore" (last starts at 0)
@@ -63,7 +65,7 @@ EvStep(n, lt, k) ==                         \* NotifyMsg(messageUserEvent)
   Res([n EXCEPT !.ec = h.c, !.ebuf = h.buf], o, o)
 
 QryStep(n, lt, id, nb, flt) ==              \* NotifyMsg(messageQuery); nb = no-broadcast flag, flt = filtered out
-  LET h == Handle(n.b, n.qc, n.qmin, n.qbuf, lt, id) IN
+  LET h == Handle(n.bq, n.qc, n.qmin, n.qbuf, lt, id) IN
   Res([n EXCEPT !.qc = h.c, !.qbuf = h.buf],
       IF h.new /\ flt = 0 THEN << <<2, lt, id>> >> ELSE <<>>,
       IF h.new /\ nb = 0 THEN << <<2, lt, id>> >> ELSE <<>>)
@@ -97,7 +99,7 @@ UevStep(n, k) ==                            \* Serf.UserEvent: lt := Increment()
 LqStep(n) ==                                \* Serf.Query: lt := Increment() - 1 (one step), handled, queued
   LET lt == n.qc
       id == 100 + n.nlq
-      h == Handle(n.b, Wrap(n.qc + 1), n.qmin, n.qbuf, lt, id) IN
+      h == Handle(n.bq, Wrap(n.qc + 1), n.qmin, n.qbuf, lt, id) IN
   Res([n EXCEPT !.qc = h.c, !.qbuf = h.buf, !.nlq = @ + 1, !.nloc = @ + 1],
       IF h.new THEN << <<2, lt, id>> >> ELSE <<>>, << <<2, lt, id>> >>)
 
@@ -105,8 +107,8 @@ LqStep(n) ==                                \* Serf.Query: lt := Increment() - 1
 RestartStep(n, re, rq) ==
   LET e0 == IF re < 0 THEN 0 ELSE re
       q0 == IF rq < 0 THEN 0 ELSE rq IN
-  [n |-> [b |-> n.b, snap |-> n.snap, ec |-> Witness(1, e0), emin |-> Wrap(e0 + 1), ebuf |-> EmptyBuf(n.b),
-          qc |-> Witness(1, q0), qmin |-> Wrap(q0 + 1), qbuf |-> EmptyBuf(n.b),
+  [n |-> [b |-> n.b, bq |-> n.bq, snap |-> n.snap, ec |-> Witness(1, e0), emin |-> Wrap(e0 + 1), ebuf |-> EmptyBuf(n.b),
+          qc |-> Witness(1, q0), qmin |-> Wrap(q0 + 1), qbuf |-> EmptyBuf(n.bq),
           se |-> re, sq |-> rq, seh |-> {re}, sqh |-> {rq}, nlq |-> n.nlq, nloc |-> n.nloc],
    dl |-> <<>>, rb |-> <<>>]
 
@@ -121,7 +123,7 @@ vars == <<N, rst, obs, last, steps, M>>
 
 ObsOf(n, dl, rb, r) ==
   [ ec |-> n.ec, emin |-> n.emin, ebuf |-> [i \in 1..n.b |-> n.ebuf[i - 1]],
-    qc |-> n.qc, qmin |-> n.qmin, qbuf |-> [i \in 1..n.b |-> n.qbuf[i - 1]],
+    qc |-> n.qc, qmin |-> n.qmin, qbuf |-> [i \in 1..n.bq |-> n.qbuf[i - 1]],
     ji |-> 0,      \* eventJoinIgnore as read after the call: only ever true inside Serf.Join(ignoreOld = true)
     dl |-> dl, rb |-> rb, re |-> r[1], rq |-> r[2] ]
 
@@ -217,8 +219,8 @@ TagsFor(m, cl) == IF (cl \in EventClauses /\ m.topE) \/ (cl \notin EventClauses 
                     THEN {"witnessed_max"} ELSE {}
 
 ------------------------------------------------------------------------------
-Init == /\ \E b \in Bs, sn \in Snaps :
-             N = NewNode(b, sn) /\ obs = ObsOf(NewNode(b, sn), <<>>, <<>>, <<-1, -1>>) /\ M = MonNew(sn)
+Init == /\ \E b \in Bs, bq \in BQs, sn \in Snaps :
+             N = NewNode(b, bq, sn) /\ obs = ObsOf(NewNode(b, bq, sn), <<>>, <<>>, <<-1, -1>>) /\ M = MonNew(sn)
         /\ rst = <<-1, -1>>
         /\ last = [a |-> "init"] /\ steps = 0
 
